@@ -116,8 +116,42 @@ def build_impl(spec: dict):
             if node.get('id') or node.get('meas') or node.get('cons'):
                 raise core.MachineryError('helper constructors take no identifier / measurements / constraints')
             node['_pt'] = _build_via(node, via)
-    go(spec)
-    return ptgen.build(spec)
+    # nodes marked `cons_as` / `meas_as` hand their constraints / measurement declarations over as another kind of
+    # iterable (`parameter_constraints: Iterable[ConstraintLike]`): tuple, set, one-shot generator, `map` object
+    orig_kw = ptgen._kw
+
+    def kw(node, *names):
+        out = orig_kw(node, *names)
+        if 'parameter_constraints' in out and node.get('cons_as'):
+            out['parameter_constraints'] = as_iterable(out['parameter_constraints'], node['cons_as'])
+        if 'measurements' in out and node.get('meas_as'):
+            out['measurements'] = as_iterable(out['measurements'], node['meas_as'])
+        return out
+    ptgen._kw = kw
+    try:
+        go(spec)
+        return ptgen.build(spec)
+    finally:
+        ptgen._kw = orig_kw
+
+
+ITERABLE_KINDS = ('list', 'tuple', 'set', 'gen', 'map', 'iter', 'dictkeys')
+
+
+def as_iterable(items: list, how: str):
+    if how == 'tuple':
+        return tuple(items)
+    if how == 'set':
+        return set(items) if all(isinstance(x, str) for x in items) else tuple(items)
+    if how == 'gen':
+        return (x for x in items)
+    if how == 'map':
+        return map(lambda x: x, items)
+    if how == 'iter':
+        return iter(list(items))
+    if how == 'dictkeys':
+        return dict.fromkeys(items).keys() if all(isinstance(x, (str, tuple)) for x in items) else list(items)
+    return list(items)
 
 
 def apply_helpers(rng: random.Random, spec: dict, p: float, wrap_p: float) -> None:
@@ -288,7 +322,7 @@ def node_at(spec: dict, path: Tuple) -> dict:
     return n
 
 
-def decorate(rng: random.Random, tree: dict, density: float = 0.55, self_range_p: float = 0.3) -> List[dict]:
+def decorate(rng: random.Random, tree: dict, density: float = 0.55, self_range_p: float = 0.3, iter_p: float = 0.4) -> List[dict]:
     """add phase-1 constraints `lhs <= K0` (K0 unique, huge) to the constrainable nodes of tree['spec'];
     returns the constraint records; tree['values'] gains the new top level names"""
     spec, values = tree['spec'], tree['values']
@@ -385,6 +419,9 @@ def decorate(rng: random.Random, tree: dict, density: float = 0.55, self_range_p
             node['cons'].append('%s <= %d' % (lhs, k0))
             recs.append({'path': [list(s) for s in path], 'pos': len(node['cons']) - 1, 'lhs': lhs, 'k0': k0,
                          'kind': node['k']})
+    for _path, node, _names, _maps in nodes:
+        if node.get('cons') and rng.random() < iter_p:
+            node['cons_as'] = rng.choice(ITERABLE_KINDS[1:])
     tree['counter'] = counter[0]
     return recs
 
@@ -830,6 +867,8 @@ def assess(ctx: core.Ctx, rec: dict, count=True) -> Tuple[List[dict], List[str],
         if any(n.get('self_range') for n in ptgen.spec_nodes(rec['case']['spec'])) or \
                 rec['case'].get('label', '').startswith('self-range'):
             ctx.count('with-loop-range-naming-its-own-index')
+        if any(n.get('cons_as') in ('gen', 'map', 'iter') for n in ptgen.spec_nodes(rec['case']['spec'])):
+            ctx.count('with-constraints-given-as-one-shot-iterable')
         if any(n.get('via') for n in ptgen.spec_nodes(rec['case']['spec'])):
             ctx.count('with-node-built-by-a-helper-constructor')
         if any(n.get('remap') for n in ptgen.spec_nodes(rec['case']['spec'])) or \
@@ -1062,6 +1101,7 @@ def exhaustive_cases() -> List[dict]:
     out.extend(nested_map_cases())
     out.extend(index_remap_cases())
     out.extend(helper_cases())
+    out.extend(iterable_cases())
     return out
 
 
@@ -1100,6 +1140,30 @@ NESTED_OUTER = {'chain': [['x1', 'x2'], ['x2', 'c']], 'rchain': [['x2', 'x1'], [
 
 def _eval_simple(expr: str, env: Dict[str, F]) -> F:
     return F(eval(expr, {'__builtins__': {}}, dict(env)))      # noqa: S307 -- own literals: names, +, numbers
+
+
+def iterable_cases() -> List[dict]:
+    """every constrainable node kind with its constraints handed over as list / tuple / set / generator expression / `map`
+    object / iterator / dict keys view (`Iterable[ConstraintLike]`; the last four can be consumed only once or are no
+    sequences), two constraints per node (one over a constraint-only parameter), satisfied on / violated at the boundary;
+    once with exactly the declared names, once with all names"""
+    out = []
+    eighth = F(1, 8)
+    pool = {'a': 0.25, 'x': 0.5, 'y': -0.5}
+    for kind in CONSTRAINABLE:
+        for how in ITERABLE_KINDS:
+            for rel, off in (('<=', F(0)), ('<', F(0))):
+                cons = ['a <= 0.25', 'x %s %s' % (rel, ptgen.fstr(F(1, 2) + off))]
+                node = _node(kind, cons)
+                node['cons_as'] = how
+                if kind == 'map':
+                    node['id'] = 'named'
+                label = 'iterable/%s/%s/%s/%s' % (kind, how, rel, off)
+                out.append({'spec': node, 'params': {}, 'param_pool': pool, 'cm': {}, 'mm': None, 'stream': 'exhaustive',
+                            'label': label + '/declared'})
+                out.append({'spec': copy.deepcopy(node), 'params': {'a': 0.25, 'x': 0.5}, 'cm': {}, 'mm': None,
+                            'stream': 'exhaustive', 'label': label + '/all'})
+    return out
 
 
 def helper_cases() -> List[dict]:
@@ -1311,7 +1375,8 @@ def run(ctx: core.Ctx):
                 'the iterations a mapping that re-defines the loop index name in terms of itself, followed by repetition / '
                 'sequence levels; 30 % of the undecorated composite nodes are built through the helper constructors '
                 '(with_repetition / **, concatenate / @, with_mapping, with_iteration, with_parallel_channels, with_time_reversal) and '
-                '35 % of the repetitions are repeated once more through with_repetition / ** (Lean sees the explicit nesting); plus the '
+                '35 % of the repetitions are repeated once more through with_repetition / ** (Lean sees the explicit nesting); 40 % of '
+                'the constrained nodes get their constraints as tuple / set / generator / map object / iterator / dict keys view; plus the '
                 'exhaustive space below. '
                 'Non-trivial = at least one constraint is visible and the tree has more than one node; distinct by request line')
     ctx.assumptions = [
@@ -1338,7 +1403,8 @@ def run(ctx: core.Ctx):
                                  'handed to the helper constructors (a constrained RepetitionPT plain / named / with measurements '
                                  'repeated through with_repetition / ** in 5 chains; constrained sequence / mapping / iteration / '
                                  'table below @, concatenate, with_mapping, with_iteration, with_parallel_channels, '
-                                 'with_time_reversal) with the Lean side on the explicit nesting: %d cases' % len(ex))
+                                 'with_time_reversal) with the Lean side on the explicit nesting, plus every constrainable node kind with its '
+                                 'constraints given as list / tuple / set / generator / map object / iterator / dict keys: %d cases' % len(ex))
     recs = [r for r in _pool_map(ctx, evaluate_case, ex) if r is not None]
     # random trees: phase A (draw + probe), phase B (streams)
     depth = 4 if ctx.quick else 5
